@@ -6,6 +6,9 @@ handed to the parser combinators) is unreachable, guarded, or discharged by a ro
 from common import Ctx, Row, sites_to_obligations
 
 ROWS = [
+    Row("R14.row1-assert", r"assembler::", r"^panic!debug_assert@\[instruction\.operands\.len\(\) >= 2\]$", "D1",
+        "the same fact as the next row, stated as an assertion: reached only after `encode` succeeded for the wide-load shape, "
+        "which has exactly two operands (R14.b evaluates every mnemonic with every operand shape and finds no panicking path)", cites=("R14.b",)),
     Row("R14.row1", r"assembler::", r"^index:.*::index\(.*operands,1\)$", "D1",
         "`operands[1]` is read only after `encode` succeeded for the wide-load shape, whose only "
         "accepting pattern has exactly two operands (checked structurally by R14.b)", cites=("R14.b",)),
